@@ -23,13 +23,15 @@ import (
 	"verifharness/terms"
 )
 
+type subgroupTerm struct {
+	N     int         `json:"n"`
+	Index int         `json:"index"`
+	Term  *terms.Term `json:"term"`
+}
+
 type friTerms struct {
-	Subgroup []struct {
-		N     int         `json:"n"`
-		Index int         `json:"index"`
-		Term  *terms.Term `json:"term"`
-	} `json:"subgroup"`
-	Combine []struct {
+	Subgroup []subgroupTerm `json:"subgroup"`
+	Combine  []struct {
 		Sizes []int       `json:"sizes"`
 		Term  *terms.Term `json:"term"`
 	} `json:"combine"`
@@ -45,11 +47,12 @@ type friTerms struct {
 }
 
 type c13Req struct {
-	Terms   string `json:"terms"`
-	Part    string `json:"part"`
-	NRandom int    `json:"nrandom"`
-	Shard   int    `json:"shard"`
-	NShards int    `json:"nshards"`
+	Terms   string   `json:"terms"`
+	Part    string   `json:"part"`
+	NRandom int      `json:"nrandom"`
+	Shard   int      `json:"shard"`
+	NShards int      `json:"nshards"`
+	More    []string `json:"more_terms"` // subgroup: further term files (other domain sizes) evaluated in the same process, in this order
 }
 
 func init() { drv.Register("c13", c13) }
@@ -96,7 +99,19 @@ func c13(raw json.RawMessage, resp *drv.Response) error {
 	mine := func(i int) bool { return req.NShards == 0 || i%req.NShards == req.Shard }
 	switch req.Part {
 	case "subgroup":
-		for i, s := range ft.Subgroup {
+		all := append([]subgroupTerm{}, ft.Subgroup...)
+		for _, m := range req.More {
+			bb, err := os.ReadFile(m)
+			if err != nil {
+				return err
+			}
+			var ft2 friTerms
+			if err := json.Unmarshal(bb, &ft2); err != nil {
+				return err
+			}
+			all = append(all, ft2.Subgroup...)
+		}
+		for i, s := range all {
 			if !mine(i) {
 				continue
 			}
